@@ -495,8 +495,9 @@ fn build_t<T: Subj + Extend<Bit>>(m: &Bits, p: Prov) -> T {
             let z = crate::dispatch::not(y, true);
             conv::unwrap_t::<T>(z)
         }
-        Prov::WithCap => {
-            let mut x = T::with_capacity(300);
+        Prov::WithCap | Prov::Cap(_) => {
+            let c = if let Prov::Cap(c) = p { c as usize } else { 300 };
+            let mut x = T::with_capacity(c);
             x.extend(m.0.iter().map(|b| b2bit(*b)));
             x
         }
